@@ -1,4 +1,5 @@
 import Mitx.Lemmas.Optimal
+import Mitx.Lemmas.PermInv
 import Mathlib.Algebra.BigOperators.Fin
 /-! # C07 — SingleListGrader scores a delimited list by the documented credit formula
 
@@ -179,5 +180,31 @@ theorem single_list_no_partial (cfg : SLCfg) (gl : List IRes) (n : ℕ) (m : Ans
   by_cases hlt : consolidateGrades (gl.map (·.grade)) n < 1
   · left; simp [hlt]
   · right; simp [hlt]; exact not_lt.mp hlt
+
+/-- **Permutation invariance (unordered lists).** Submitting the same items in a different order — `π` is any
+    permutation of the positions of the delimiter-separated items — never changes the grade or `ok`. -/
+theorem single_list_perm_invariant {α : Type} {cfg : SLCfg} {sub : α → String → M IRes} {m : AnsMeta} {items : List α}
+    {inp₁ inp₂ : String} {out₁ out₂ : IRes} (hord : cfg.ordered = false) (hpos : 0 < items.length) {k : ℕ}
+    (h1 : (pySplit inp₁ cfg.delimiter).length = k) (h2 : (pySplit inp₂ cfg.delimiter).length = k)
+    (π : Equiv.Perm (Fin k))
+    (hπ : ∀ i : Fin k, (pySplit inp₂ cfg.delimiter)[i.1]'(by rw [h2]; exact i.2) =
+      (pySplit inp₁ cfg.delimiter)[(π i).1]'(by rw [h1]; exact (π i).2))
+    (r1 : slCheckResponse cfg sub m items inp₁ = .ok out₁) (r2 : slCheckResponse cfg sub m items inp₂ = .ok out₂) :
+    out₁.grade = out₂.grade ∧ out₁.ok = out₂.ok := by
+  obtain ⟨gl₁, ho₁, hg₁⟩ := sl_ok_inv r1
+  obtain ⟨gl₂, ho₂, hg₂⟩ := sl_ok_inv r2
+  simp only [hord, Bool.false_eq_true, ↓reduceIte, h1, h2] at hg₁ hg₂
+  have hkn : k ≤ max items.length k := le_max_right _ _
+  have hn : 0 < max items.length k := lt_of_lt_of_le hpos (le_max_left _ _)
+  obtain ⟨hsum, hlen⟩ := findOptimalOrder_perm_invariant (grade := fun r : IRes => r.grade) hn
+    (padTo_length _ items (le_max_left _ _)) (padTo_length' _ _ (by omega)) (padTo_length' _ _ (by omega))
+    (extendPerm hkn π) (padTo_perm hkn h1 h2 π hπ) hg₁ hg₂
+  have hg : out₁.grade = out₂.grade := by
+    rw [ho₁, ho₂, (processGradeList_spec cfg gl₁ items.length m).1, (processGradeList_spec cfg gl₂ items.length m).1,
+      consolidateGrades_formula, consolidateGrades_formula, hsum]
+    simp only [List.length_map, hlen]
+  refine ⟨hg, ?_⟩
+  rw [ho₁, ho₂, (processGradeList_spec cfg gl₁ items.length m).2.1, (processGradeList_spec cfg gl₂ items.length m).2.1,
+    ← ho₁, ← ho₂, hg]
 
 end C07
